@@ -12,6 +12,14 @@ package limiter
 //@   ensures [C15:v6mask] opts.V6Mask == ((1 <= old(opts.V6Mask) && old(opts.V6Mask) <= 128) ? old(opts.V6Mask) : 48)
 //@   ensures [C15:burst] old(opts.Burst) > 0 ==> opts.Burst == old(opts.Burst)
 
+// NewClientLimiter: the limiter runs with the defaulted options - in particular with usable mask lengths.
+//@ func NewClientLimiter(opts ClientLimiterOpts) (l *ClientLimiter)
+//@   props C15
+//@   modifies nothing
+//@   ensures l != nil && fresh(l) && l.m != nil && masksOK(l)
+//@   ensures [C15:configured-masks-kept] l.opts.V4Mask == ((1 <= opts.V4Mask && opts.V4Mask <= 32) ? opts.V4Mask : 24) && l.opts.V6Mask == ((1 <= opts.V6Mask && opts.V6Mask <= 128) ? opts.V6Mask : 48)
+//@   ensures [C15:configured-burst-kept] opts.Burst > 0 ==> l.opts.Burst == opts.Burst
+
 // ---- client_limiter.go: the bucket key (C15) ---------------------------------------------------
 // netip's Unmap, Is4 and Is6 are executed from their real source; PrefixFrom, Prefix.Masked and Prefix.Addr are
 // used by their assumed contracts (/verif/specs/ext/std.spec).
